@@ -127,6 +127,17 @@ hist_impl!(h4);
 hist_impl!(h10);
 hist_impl!(h100);
 
+#[cfg(feature = "nightly")]
+pub fn from_ranges(len: usize, edges: &[f64]) -> Result<Box<dyn Hist>, InvalidRangeError> {
+    cg::from_ranges(len, edges)
+}
+
+#[cfg(feature = "nightly")]
+pub fn with_const_width(len: usize, a: f64, b: f64) -> Box<dyn Hist> {
+    cg::with_const_width(len, a, b)
+}
+
+#[cfg(not(feature = "nightly"))]
 pub fn from_ranges(len: usize, edges: &[f64]) -> Result<Box<dyn Hist>, InvalidRangeError> {
     let it = edges.iter().copied();
     Ok(match len {
@@ -140,6 +151,7 @@ pub fn from_ranges(len: usize, edges: &[f64]) -> Result<Box<dyn Hist>, InvalidRa
     })
 }
 
+#[cfg(not(feature = "nightly"))]
 pub fn with_const_width(len: usize, a: f64, b: f64) -> Box<dyn Hist> {
     match len {
         1 => Box::new(h1::Histogram::with_const_width(a, b)),
@@ -149,5 +161,136 @@ pub fn with_const_width(len: usize, a: f64, b: f64) -> Box<dyn Hist> {
         10 => Box::new(h10::Histogram::with_const_width(a, b)),
         100 => Box::new(h100::Histogram::with_const_width(a, b)),
         _ => panic!("harness: unsupported LEN"),
+    }
+}
+
+/// The const-generic twin `average::histogram_const::Histogram<LEN>` (nightly feature).
+/// In a nightly build of the harness the H simulator drives these types instead of the
+/// macro-generated ones; they have no serde support, so migrate faults are skipped.
+#[cfg(feature = "nightly")]
+pub mod cg {
+    use super::Hist;
+    use average::histogram_const::{Histogram as CH, InvalidRangeError as CErr};
+    use average::{InvalidRangeError, Merge};
+
+    macro_rules! hist_impl_const {
+        ($n:expr) => {
+            impl Hist for CH<$n> {
+                fn len(&self) -> usize {
+                    self.bins().len()
+                }
+                fn find(&self, x: f64) -> Result<usize, ()> {
+                    CH::<$n>::find(self, x).map_err(|_| ())
+                }
+                fn add(&mut self, x: f64) -> Result<(), ()> {
+                    CH::<$n>::add(self, x).map_err(|_| ())
+                }
+                fn bins(&self) -> Vec<u64> {
+                    CH::<$n>::bins(self).to_vec()
+                }
+                fn ranges(&self) -> Vec<f64> {
+                    CH::<$n>::ranges(self).to_vec()
+                }
+                fn range_min(&self) -> f64 {
+                    CH::<$n>::range_min(self)
+                }
+                fn range_max(&self) -> f64 {
+                    CH::<$n>::range_max(self)
+                }
+                fn reset(&mut self) {
+                    CH::<$n>::reset(self)
+                }
+                fn merge_from(&mut self, other: &dyn Hist) {
+                    let o = other.as_any().downcast_ref::<CH<$n>>().expect("harness: same LEN");
+                    Merge::merge(self, o)
+                }
+                fn add_assign_from(&mut self, other: &dyn Hist) {
+                    let o = other.as_any().downcast_ref::<CH<$n>>().expect("harness: same LEN");
+                    *self += o;
+                }
+                fn mul_assign(&mut self, k: u64) {
+                    *self *= k;
+                }
+                fn boxed_clone(&self) -> Box<dyn Hist> {
+                    Box::new(self.clone())
+                }
+                fn iter_items(&self) -> Vec<((f64, f64), u64)> {
+                    self.iter().collect()
+                }
+                fn into_iter_items(&self) -> Vec<((f64, f64), u64)> {
+                    let mut v = vec![];
+                    for it in self {
+                        v.push(it);
+                    }
+                    v
+                }
+                fn widths(&self) -> Vec<f64> {
+                    CH::<$n>::widths(self).collect()
+                }
+                fn centers(&self) -> Vec<f64> {
+                    CH::<$n>::centers(self).collect()
+                }
+                fn normalized_bins(&self) -> Vec<f64> {
+                    CH::<$n>::normalized_bins(self).collect()
+                }
+                fn variance(&self, i: usize) -> f64 {
+                    CH::<$n>::variance(self, i)
+                }
+                fn variances(&self) -> Vec<f64> {
+                    CH::<$n>::variances(self).collect()
+                }
+                fn debug(&self) -> String {
+                    format!("{:?}", self)
+                }
+                fn to_json(&self) -> String {
+                    "null".to_string() // no serde support: treated as a non-checkpointable state
+                }
+                fn from_json_same(&self, _s: &str) -> Result<Box<dyn Hist>, String> {
+                    Err("const-generic histograms have no serde support".into())
+                }
+                fn as_any(&self) -> &dyn std::any::Any {
+                    self
+                }
+            }
+        };
+    }
+    hist_impl_const!(1);
+    hist_impl_const!(2);
+    hist_impl_const!(3);
+    hist_impl_const!(4);
+    hist_impl_const!(10);
+    hist_impl_const!(100);
+
+    fn conv(e: CErr) -> InvalidRangeError {
+        match e {
+            CErr::NotEnoughRanges => InvalidRangeError::NotEnoughRanges,
+            CErr::NotSorted => InvalidRangeError::NotSorted,
+            CErr::NaN => InvalidRangeError::NaN,
+        }
+    }
+
+    pub fn from_ranges(len: usize, edges: &[f64]) -> Result<Box<dyn Hist>, InvalidRangeError> {
+        let it = edges.iter().copied();
+        Ok(match len {
+            1 => Box::new(CH::<1>::from_ranges(it).map_err(conv)?),
+            2 => Box::new(CH::<2>::from_ranges(it).map_err(conv)?),
+            3 => Box::new(CH::<3>::from_ranges(it).map_err(conv)?),
+            4 => Box::new(CH::<4>::from_ranges(it).map_err(conv)?),
+            10 => Box::new(CH::<10>::from_ranges(it).map_err(conv)?),
+            100 => Box::new(CH::<100>::from_ranges(it).map_err(conv)?),
+            _ => panic!("harness: unsupported LEN"),
+        })
+    }
+
+    pub fn with_const_width(len: usize, a: f64, b: f64) -> Box<dyn Hist> {
+        match len {
+            1 => Box::new(CH::<1>::with_const_width(a, b)),
+            2 => Box::new(CH::<2>::with_const_width(a, b)),
+            3 => Box::new(CH::<3>::with_const_width(a, b)),
+            4 => Box::new(CH::<4>::with_const_width(a, b)),
+            10 => Box::new(CH::<10>::with_const_width(a, b)),
+            100 => Box::new(CH::<100>::with_const_width(a, b)),
+            _ => panic!("harness: unsupported LEN"),
+        }
     }
 }
